@@ -14,12 +14,13 @@ from typing import Any, Dict, List, Sequence, Tuple
 NAMED = 1000
 
 NAME_MAPS: Dict[str, List[str]] = {
-    'plain': ['A', 'B', 'C', 'D', 'E5', 'F'],
-    'adversarial': ['is_open', '_x', 'not_X', '_', '__x', 'e'],
-    'adversarial2': ['t', 'self_', 'Pin', 'or_1', '_x9_', 'lambda_'],
-    'funcnames': ['exp', 'max', 'log', 'min', 'abs', 'np'],
+    'plain': ['A', 'B', 'C', 'D', 'E5', 'F', 'G', 'H', 'X1', 'X10', 'X100', 'Y', 'Ya', 'Z', 'Zz', 'W'],
+    'adversarial': ['is_open', '_x', 'not_X', '_', '__x', 'e', 'X_if_Y', 'x_t', 'T', 'andy', 'or_', 'In', 'lambda1', 'e1', 'E', 'pass_'],
+    'adversarial2': ['t', 'self_', 'Pin', 'or_1', '_x9_', 'lambda_', 'tt', 't1', 'self', 'np_', 'exp_', 'logX', 'maxi', 'Min', 'x', 'X'],
+    'funcnames': ['exp', 'max', 'log', 'min', 'abs', 'np', 'sqrt', 'sum', 'print', 'float', 'int', 'len', 'all', 'any', 'round', 'pow'],
     'vnames': [f'V{i}' for i in range(1, 61)],
-    'long': ['Household_consumption_total_real', 'gross_domestic_product_2', 'k', 'V_1_2_3', 'Z' * 30, 'q_'],
+    'long': ['Household_consumption_total_real', 'gross_domestic_product_2', 'k', 'V_1_2_3', 'Z' * 30, 'q_', 'a' * 40, 'b1_' * 10,
+             'Cc', 'Dd', 'Ee', 'Ff', 'Gg', 'Hh', 'Ii', 'Jj'],
 }
 
 
